@@ -482,14 +482,32 @@ def check_dnf(cx, rep, F_):
             continue
         st = [i for i, t in enumerate(ins) if t.startswith("&mut std::vec::Vec<") and "Atom" in t]
         if len(st) == 2 and ins[st[0]] == ins[st[1]]:
-            cands.append((f, st))
+            cands.append((f, st, None))
+    # the same walk with its state in a struct: a self-recursive method fn(&mut S, &Bdd) where S holds the two stacks
+    # (the two equally typed Vec<Atom> fields, positive declared first) next to the accumulator
+    for f in F_.fns.values():
+        if not f.mir or f.kind == "Closure" or f.id not in F_.hir or f.id not in F_.edges.get(f.id, ()):
+            continue
+        ins = f.inputs or []
+        if len(ins) < 2 or not ins[0].startswith("&mut ") or not any("Bdd" in t for t in ins[1:]):
+            continue
+        sname = ins[0][5:].split("<")[0]
+        adt = next((a for k_, a in F_.adts.items() if k_ == sname or k_.endswith("::" + sname)), None)
+        if adt is None or adt.get("kind") != "Struct":
+            continue
+        flds = [x for x in adt["variants"][0]["fields"] if x["ty"].startswith("std::vec::Vec<") and x["ty"].endswith("Atom>")]
+        if len(flds) == 2 and flds[0]["ty"] == flds[1]["ty"]:
+            cands.append((f, None, (flds[0]["name"], flds[1]["name"])))
     if len(cands) != 1:
-        rep.anchor_missing("C06.4", "the DNF path collector (self-recursive fn(&Bdd, &mut Vec<Atom>, &mut Vec<Atom>, ..)); found %d" % len(cands))
+        rep.anchor_missing("C06.4", "the DNF path collector (self-recursive fn(&Bdd, &mut Vec<Atom>, &mut Vec<Atom>, ..) or method of a struct holding the two stacks); found %d" % len(cands))
         return
-    f, st = cands[0]
+    f, st, sflds = cands[0]
     tree = F_.hir[f.id]
     plids = [p.get("lid") if p["k"] == "P.Binding" else None for p in tree["params"]]
-    role = {plids[st[0]]: "pos", plids[st[1]]: "neg"}
+    if st is not None:
+        role = {plids[st[0]]: "pos", plids[st[1]]: "neg"}
+    else:
+        role = {("field", sflds[0]): "pos", ("field", sflds[1]): "neg"}
     fld = {}
     for n in walk(tree["body"]):
         if n["k"] == "P.Struct" and (n.get("def") or "").endswith("Bdd::Node"):
@@ -548,10 +566,17 @@ def linear_events(F_, f, body, role, fld):
             return
         if n.get("k") == "MethodCall" and n["method"] in ("push", "pop"):
             recv = [x for x in walk(n["recv"]) if x["k"] == "Path" and x.get("res") == "local"]
-            out.append((n["method"], role.get(recv[0].get("lid"), recv[0]["name"]) if recv else "?"))
+            rf = [x for x in walk(n["recv"]) if x["k"] == "Field" and any(z["k"] == "Path" and z.get("name") == "self" for z in walk(x))]
+            if rf and ("field", rf[0]["name"]) in role:
+                out.append((n["method"], role[("field", rf[0]["name"])]))
+            elif rf and any(isinstance(k_, tuple) for k_ in role):
+                out.append((n["method"], rf[0]["name"]))
+            else:
+                out.append((n["method"], role.get(recv[0].get("lid"), recv[0]["name"]) if recv else "?"))
             return
-        if n.get("k") == "Call" and F_._callee_gid(f.crate, n.get("callee") or "") == f.id:
-            arg0 = [fld.get(x.get("lid")) for x in walk(n["args"][0]) if x["k"] == "Path" and x.get("res") == "local" and x.get("lid") in fld]
+        if (n.get("k") == "Call" and F_._callee_gid(f.crate, n.get("callee") or "") == f.id) or \
+                (n.get("k") == "MethodCall" and F_._callee_gid(f.crate, n.get("resolved") or n.get("callee") or "") == f.id):
+            arg0 = [fld.get(x.get("lid")) for a_ in n["args"] for x in walk(a_) if x["k"] == "Path" and x.get("res") == "local" and x.get("lid") in fld]
             out.append(("rec", arg0[0] if arg0 else "?"))
             return
         for k, v in n.items():
